@@ -38,6 +38,15 @@ FIXED_C01 = [
     (2, 0, "pun2:000.pu:000_pon2:000.po:000"),
     (2, 65534, "pu.pu.pu_po.po.po"),          # 16-bit version wrap (32767 rounds done)
     (1, 32767, "pun1.pun1_pon1.pon1"),
+    (1, 32767, "pu.pu_po_po"),                # several waiters of one role parked across the wrap
+    (1, 32767, "pu_pu_po.po"),
+    (2, 65534, "pu.pu.pu_po.po_po"),
+    (2, 65534, "pun2.pun2_pon2_pon2"),
+    # non-concurrent (CONCURRENT = false) try batches spanning the ring boundary while the other side is mid-operation
+    (2, 0, "pu:011.pu:011.pu:011.tpun2:011_po.tpo_po.tpo"),
+    (4, 0, "pun3:011.tpun3:011.tpun2:011_pon2.tpo_po.tpon2"),
+    (2, 0, "pu.pu_pu.tpu_po:011.tpon2:011.tpon2:011"),
+    (4, 0, "pun3.pu_pu.tpun2_pon2:011.tpon3:011.tpon2:011"),
 ]
 FIXED_C02 = [
     (1, 0, "pu.pu.pu_po.po.po"),
@@ -51,6 +60,9 @@ FIXED_C02 = [
     (2, 0, "pun2:110.pun2:110_pon2:101.pon2:101"),
     (2, 0, "pu:100.pu:100.pu:100_po:100.po:100.po:100"),
     (1, 32767, "pu.pu_po.po"),
+    (1, 32767, "pu.pu_po_po"),
+    (1, 32767, "pu_pu_po.po"),
+    (2, 65534, "pun2.pu.pu_pon2_po.po"),
     (2, 0, "pu.pu_xpon2"),
     (4, 0, "pu.pu.pu_xpon2.xpon2"),
     (4, 0, "pun2.pu_xpon2.xpon1"),
@@ -262,49 +274,77 @@ def run(pid, tier, seed, replay=None):
     V.extra["exec_status"] = status
 
     # ---- validation of the recorded executions
-    def locate(issue, lines_of):
-        ex = execs[issue.exec_index]
-        return ex, exec_key(ex)
-
-    results = {}
-    for name, tla, cfg, conv in (
+    LAYERS = (
         ("L1", os.path.join(SPEC, "BQ_Mon.tla"), os.path.join(SPEC, "mc", "BQ_Mon.cfg"), bq.monitor_lines),
         ("HB", os.path.join(SPEC, "lib", "HBMon.tla"), os.path.join(SPEC, "mc", "HBMon.cfg"), lambda ex: bq.hb_lines(ex, bq.bq_acc(int(ex[0]["params"]["cap"])))),
         ("L2", os.path.join(SPEC, "BQ_Trace.tla"), os.path.join(SPEC, "mc", "BQ_Trace.cfg"), bq.normalise),
-    ):
-        lines = [conv(ex) for ex in execs]
-        acc, issues, st = vlib.check_traces(tla, cfg, lines, pid + "_" + name)
-        results[name] = (acc, issues, st)
-        V.cov["transitions"] += st["states"]
-        V.extra["trace_" + name] = {"accepted": acc, "issues": len(issues), "tlc_states": st["states"], "wall_s": round(st["wall"], 1), "unchecked": st["unchecked"]}
-        for iss in issues:
-            ex = execs[iss.exec_index]
-            key = exec_key(ex)
-            if iss.kind == "rejected":
-                if name == "L2":
-                    V.drift += 1
-                    log("SPEC-DRIFT component=bounded_queue exec=%s line=%d %s" % (json.dumps(key["params"]), iss.line, iss.detail))
+    )
+    results = {}
+    drifting = []
+
+    def validate(batch, layers, tag):
+        for name, tla, cfg, conv in layers:
+            lines = [conv(ex) for ex in batch]
+            acc, issues, st = vlib.check_traces(tla, cfg, lines, pid + "_" + name + tag)
+            prev = results.get(name, (0, [], {"pairs": []}))
+            results[name] = (prev[0] + acc, prev[1] + issues, {"pairs": sorted(set(prev[2]["pairs"]) | set(st["pairs"]))})
+            V.cov["transitions"] += st["states"]
+            e = V.extra.setdefault("trace_" + name, {"accepted": 0, "issues": 0, "tlc_states": 0, "wall_s": 0.0, "unchecked": 0})
+            e["accepted"] += acc
+            e["issues"] += len(issues)
+            e["tlc_states"] += st["states"]
+            e["wall_s"] = round(e["wall_s"] + st["wall"], 1)
+            e["unchecked"] += st["unchecked"]
+            for iss in issues:
+                ex = batch[iss.exec_index]
+                key = exec_key(ex)
+                if iss.kind == "rejected":
+                    if name == "L2":
+                        V.drift += 1
+                        drifting.append(key)
+                        log("SPEC-DRIFT component=bounded_queue exec=%s line=%d %s" % (json.dumps(key["params"]), iss.line, iss.detail))
+                        continue
+                    raise vlib.Broken("%s monitor rejected a trace (monitors must accept every well-formed trace): %s" % (name, iss.detail))
+                clause = iss.kind.split(":", 1)[1]
+                what = clause
+                if name == "L1":
+                    m = re.findall(r'bad = "(\w+)"', iss.detail)
+                    what = m[-1] if m and m[-1] else ("RealTimeFIFO" if clause == "Holds" else clause)
+                if name == "HB":
+                    what = "NoDataRace"
+                if what.lstrip("T") not in {c.lstrip("T") for c in mine}:
+                    V.extra.setdefault("other_property_clauses_seen", []).append(what)
                     continue
-                raise vlib.Broken("%s monitor rejected a trace (monitors must accept every well-formed trace): %s" % (name, iss.detail))
-            clause = iss.kind.split(":", 1)[1]
-            what = clause
-            if name == "L1":
-                m = re.findall(r'bad = "(\w+)"', iss.detail)
-                what = m[-1] if m and m[-1] else ("RealTimeFIFO" if clause == "Holds" else clause)
-            if name == "HB":
-                what = "NoDataRace"
-            if what.lstrip("T") not in {c.lstrip("T") for c in mine}:
-                V.extra.setdefault("other_property_clauses_seen", []).append(what)
-                continue
-            # reproducibility: the same schedule must fail again
-            if not replay:
-                ex2 = rerun(key)
-                lines2 = [conv(ex2)] if ex2 else []
-                _, iss2, _ = vlib.check_traces(tla, cfg, lines2, pid + "_re") if lines2 else (0, [], {})
-                if not iss2:
-                    raise vlib.Broken("violation %s did not reproduce on re-execution of %s" % (what, json.dumps(key)))
-            rp = vlib.save_replay(pid, "%s_%s_%d.json" % (name, what, iss.exec_index), {"exec": key, "clause": what, "layer": name, "line": iss.line, "trace": ex[:400]})
-            V.violation("%s violated on an execution of the real code (%s layer) params=%s seed=%s" % (what, name, key["params"].get("prog"), key["seed"]), rp)
+                # reproducibility: the same schedule must fail again
+                if not replay:
+                    ex2 = rerun(key)
+                    lines2 = [conv(ex2)] if ex2 else []
+                    _, iss2, _ = vlib.check_traces(tla, cfg, lines2, pid + "_re") if lines2 else (0, [], {})
+                    if not iss2:
+                        raise vlib.Broken("violation %s did not reproduce on re-execution of %s" % (what, json.dumps(key)))
+                rp = vlib.save_replay(pid, "%s_%s_%d%s.json" % (name, what, iss.exec_index, tag), {"exec": key, "clause": what, "layer": name, "line": iss.line, "trace": ex[:400]})
+                V.violation("%s violated on an execution of the real code (%s layer) params=%s seed=%s" % (what, name, key["params"].get("prog"), key["seed"]), rp)
+
+    validate(execs, LAYERS, "")
+
+    # ---- drift-guided intensification: where the code no longer follows the L2 specification the
+    # specification's exhaustive exploration no longer speaks for it, so the real code is explored much
+    # harder exactly there (L1 + HB verdicts only)
+    if drifting and not replay and not V.violations:
+        seen = []
+        for key in drifting:
+            p = key["params"]
+            t = (int(p["cap"]), int(p.get("base", 0)), p["prog"])
+            if t not in seen:
+                seen.append(t)
+        seen = seen[:4]
+        extra, sx = record(seen, (seed * 1000 + 500, seed * 1000 + 500 + (300 if tier == "quick" else 3000)), "mix", os.path.join(vlib.BUILD, "traces", pid + "_driftmix"))
+        e5, s5 = record(seen, (1, 2), "pb", os.path.join(vlib.BUILD, "traces", pid + "_driftpb"), extra=["--pb-bound", "3", "--max-execs", "1500" if tier == "quick" else "30000"])
+        extra += e5
+        V.extra["drift_guided_executions"] = len(extra)
+        execs += extra
+        validate(extra, LAYERS[:2], "_dg")
+
     V.cov["traces_validated_against_impl"] = results["L1"][0] + results["L2"][0] + results["HB"][0]
     for ex in execs[:2]:
         V.sample({"program": ex[0]["params"], "strategy": ex[0]["strategy"], "events": len(ex), "first_events": ex[1:8]})
